@@ -207,6 +207,12 @@ def split_over_multi_axis_list(spec, case):
     return False
 
 
+def no_job_output_node_with_inherited_axes(spec, case):
+    """the workflow's output node ran no job (own split over an empty list, combined away) but inherits >= 1 axis"""
+    o = ref_wf.evaluate(spec, wfin=case.get("wfin") or {})[spec["out"][0]]
+    return bool(o.combined and not o.jobs and o.axes and o.table)
+
+
 def dual_use_nodes(spec):
     """nodes that use one upstream output both as a split source and as a plain input"""
     out = []
@@ -287,6 +293,9 @@ def decide(case, wctx):
         rest = [m for m in mism if owner.get(m["node"] if m["node"] != "<workflow output>" else m["of"], m["node"]) not in (tainted | dual)]
         if dual and not rest:
             r["mech"] = "split-source-also-plain-input"
+        elif (len(mism) == 1 and mism[0]["node"] == "<workflow output>" and mism[0]["got"] == [] and not case.get("wfsplit")
+              and no_job_output_node_with_inherited_axes(spec, case)):
+            r["mech"] = "no-job-output-node-loses-inherited-axes"
     return r
 
 
